@@ -6,6 +6,7 @@ package main
 // cannot discharge.
 
 import (
+	"os"
 	"fmt"
 	"go/constant"
 	"go/token"
@@ -194,7 +195,7 @@ func sameValue(a, b ssa.Value) bool {
 // establishes len(s) >= n (0 if none).
 func minLen(blk *ssa.BasicBlock, s ssa.Value) int64 {
 	var best int64
-	for _, ct := range dominatingConds(blk) {
+	for _, ct := range impliedConds(blk) {
 		bo, ok := ct.Cond.(*ssa.BinOp)
 		if !ok {
 			continue
@@ -205,7 +206,7 @@ func minLen(blk *ssa.BasicBlock, s ssa.Value) int64 {
 				// l := len(s) stored in a register: lenSide is the call itself via phi? handled by lenArg(stripConv)
 				return
 			}
-			if !sameValue(la, s) {
+			if !sameValue(ct.resolve(la), s) {
 				return
 			}
 			c, ok := constInt(other)
@@ -697,6 +698,25 @@ var panicAllow = map[string]string{}
 
 func allowPanic(key, reason string) { panicAllow[key] = reason }
 
+// panicAllowCount: how many syntactic sites a reviewed entry covers on the reviewed tree (1 unless
+// recorded).  A site that moved to another function (or was rewritten) is matched against an entry
+// only while the entry's sites are not all accounted for, so a NEW site of the same shape is
+// still reported.
+var panicAllowCount = map[string]int{}
+
+func allowPanicN(key string, n int, reason string) {
+	panicAllow[key] = reason
+	panicAllowCount[key] = n
+}
+
+func allowRoom(k string, used map[string]int) bool {
+	n := panicAllowCount[k]
+	if n == 0 {
+		n = 1
+	}
+	return used[k] < n
+}
+
 // panicFree reports every undischarged panic site reachable from roots.
 func panicFree(p *Prog, r *Report, rule string, roots []*ssa.Function, scope func(*ssa.Function) bool) {
 	r.Rule(rule, "no instruction that can panic or exit the process (explicit panic, unchecked type assertion, index/slice without an established bound, integer division by a variable, Fatal/os.Exit) is reachable from the entry points, apart from sites discharged by the bound analysis or listed with a reason")
@@ -750,6 +770,13 @@ func panicFree(p *Prog, r *Report, rule string, roots []*ssa.Function, scope fun
 			r.bad(rule, short, p.Pos(s.In.Pos()), fmt.Sprintf("%s may panic; reachable via %s", s.Kind, strings.Join(append(path, fn.Name()), " -> ")))
 		}
 	}
+	if os.Getenv("CQLVERIF_DEBUG_ALLOW") != "" {
+		for k, n := range usedAllow {
+			if n > 1 {
+				fmt.Fprintf(os.Stderr, "allow-multiplicity %d %s\n", n, k)
+			}
+		}
+	}
 	r.count("functions_reachable", len(fns))
 	r.count("panic_sites", nsites)
 	r.count("bounds_discharged", ndis)
@@ -783,7 +810,7 @@ func matchMovedSite(short string, used map[string]int) (string, string) {
 	sort.Strings(keys)
 	for _, k := range keys {
 		p2, r2 := splitSiteKey(k)
-		if p2 == pkg && r2 == rest && used[k] == 0 {
+		if p2 == pkg && r2 == rest && allowRoom(k, used) {
 			return k, panicAllow[k]
 		}
 	}
@@ -802,7 +829,7 @@ func matchMovedSite(short string, used map[string]int) (string, string) {
 	}
 	for _, k := range keys {
 		p2, r2 := splitSiteKey(k)
-		if p2 == pkg && norm(r2) == norm(rest) && norm(rest) != "" && used[k] == 0 {
+		if p2 == pkg && norm(r2) == norm(rest) && norm(rest) != "" && allowRoom(k, used) {
 			return k, panicAllow[k]
 		}
 	}
@@ -864,12 +891,14 @@ func sameIntValue(a, b ssa.Value) bool {
 
 // reviewed entries that may also be recognised by the shape of the access (package + kind +
 // type of the indexed value + index), for code that was reorganised around them
-var panicAllowShape = map[string]string{
-	"astra|index:[]*x509.Certificate[0]":   "astra.copyTLSConfig$1:index:make([]*x509.Certificate)[0]",
-	"astra|slice:[]*x509.Certificate[1:]":  "astra.copyTLSConfig$1:slice:make([]*x509.Certificate)[1:]",
-	"proxycore|index:[]*ClientConn[var]":   "proxycore.connectPool$1:index:*<*[]*proxycore.ClientConn>[idx]",
-	"proxycore|index:[]error[var]":         "proxycore.connectPool$1:index:*errs[idx]",
-	"proxycore|index:[]*proxycore.ClientConn[var]": "proxycore.connectPool$1:index:*<*[]*proxycore.ClientConn>[idx]",
+var panicAllowShape = map[string][]string{
+	"astra|index:[]*x509.Certificate[0]":  {"astra.copyTLSConfig$1:index:make([]*x509.Certificate)[0]"},
+	"astra|slice:[]*x509.Certificate[1:]": {"astra.copyTLSConfig$1:slice:make([]*x509.Certificate)[1:]"},
+	"proxycore|index:[]*ClientConn[var]": {"proxycore.connectPool$1:index:*<*[]*proxycore.ClientConn>[idx]",
+		"(*proxycore.connPool).stayConnected:index:p.conns[idx]"},
+	"proxycore|index:[]error[var]": {"proxycore.connectPool$1:index:*errs[idx]"},
+	"proxycore|index:[]*proxycore.ClientConn[var]": {"proxycore.connectPool$1:index:*<*[]*proxycore.ClientConn>[idx]",
+		"(*proxycore.connPool).stayConnected:index:p.conns[idx]"},
 }
 
 func matchSiteShape(short, shape string, used map[string]int) (string, string) {
@@ -877,7 +906,10 @@ func matchSiteShape(short, shape string, used map[string]int) (string, string) {
 		return "", ""
 	}
 	pkg, _ := splitSiteKey(short)
-	if k, ok := panicAllowShape[pkg+"|"+shape]; ok && used[k] == 0 {
+	for _, k := range panicAllowShape[pkg+"|"+shape] {
+		if !allowRoom(k, used) {
+			continue
+		}
 		if reason, ok := panicAllow[k]; ok {
 			return k, reason
 		}
